@@ -22,6 +22,8 @@ func c09(p *core.Program, r *core.Report) {
 	r.Rule("R2", "a file renamed over a persistent file starts empty: in package pilosa the source of every os.Rename is a temporary file created in the same function (or in the in-package function that returned its path) by os.Create, ioutil.WriteFile, or OpenFile with constant flags containing O_TRUNC or O_EXCL; a leftover from an interrupted earlier attempt is therefore never partly overwritten and then moved into place (its tail would be read as op-log records at the next start)")
 	r.Rule("R3", "the op log stays attached: a fragment function that sets <fragment>.storage.OpWriter to nil has it attached again on every path on which it returns; writes acknowledged while it is nil are not in the log")
 	opWriterReattached(p, r, "R3")
+	r.Rule("R5", "snapshots are written through a buffer: no call of roaring Bitmap.WriteTo in package pilosa has the fragment's data file (<fragment>.file) as its writer")
+	c09BufferedSnapshots(p, r)
 	r.NotDecided = "file-system behaviour under power loss (no fsync before the snapshot rename); torn appends to the op log (the reader's handling of a short last record is C05/C06)"
 	b, err := newFxBase(p)
 	if err != nil {
